@@ -206,6 +206,8 @@ namespace {
     const std::vector<int64_t> &globs;
     int fault_site; // cb site that throws (0 = none)
     std::vector<int64_t> trace;
+    size_t budget = 0; // >0: abort when the modelled work exceeds it (used by the generator to bound calls)
+    size_t calls = 0;
     using Scope = std::vector<std::pair<std::string, int64_t>>;
 
     int64_t lookup(const std::vector<Scope> &frame, const std::string &name) {
@@ -292,6 +294,10 @@ namespace {
       }
     }
     void call(int f, const bool flags[3], int n) {
+      ++calls;
+      if (budget != 0 && trace.size() + calls * 4 > budget) {
+        throw Abort();
+      }
       std::vector<Scope> frame(1);
       exec_body(fns[size_t(f)].at("body"), f, frame, flags, n);
     }
@@ -358,6 +364,38 @@ namespace {
           }
         }
         ops.push(std::move(op));
+      }
+      // bound the work of every call: recursion inside loops / calls of other functions multiplies;
+      // the scope model counts the reads a call performs, calls above the bound lose their
+      // recursion depth or are dropped (the step cap is a liveness oracle, not a workload limit)
+      {
+        std::vector<int64_t> globs(N_GLOB, 0);
+        J kept = J::array();
+        for (size_t i = 0; i < ops.size(); ++i) {
+          J op = ops[i];
+          if (op.at("k").str() == "call") {
+            auto cost = [&](const J &o) -> size_t {
+              const int f = int(o.at("flags").num());
+              const bool fl[3] = {(f & 1) != 0, (f & 2) != 0, (f & 4) != 0};
+              ModelExec m{fns, globs, 0};
+              m.budget = 400;
+              try {
+                m.call(int(o.at("f").num()), fl, int(o.at("n").num()));
+              } catch (const Abort &) {
+                return size_t(1000000);
+              }
+              return m.trace.size() + m.calls * 4;
+            };
+            if (cost(op) > 400) {
+              op["n"] = J(0);
+              if (cost(op) > 400) {
+                continue;
+              }
+            }
+          }
+          kept.push(op);
+        }
+        ops = kept;
       }
       p["sched"] = gen_sched(sched, T, uint64_t(n) * 10);
       return p;
